@@ -22,6 +22,11 @@ def main(dirs):
         viol = [l for l in chk.stdout.splitlines() if l.startswith('VIOLATION')]
         msg = [l for l in chk.stdout.splitlines() if not l.startswith(('VIOLATION', 'KNOWN-FINDING', pid + ' '))]
         rows.append((os.path.basename(d), pid, before, after, ap.returncode, chk.returncode, viol[:1], msg[-1:] ))
+        meta['verified'] = {'demo_rc_unchanged_tree': before, 'demo_rc_with_change': after, 'patch_applies_rc': ap.returncode,
+                            'how': 'scratch worktree of /repo HEAD; PYTHONPATH=<worktree> demo.py; VERIF_REPO=<worktree> ./check %s quick' % pid}
+        meta['check_result'] = {'exit': chk.returncode, 'violation_line': (viol[:1] or [''])[0].replace(wt, '<worktree>'),
+                                'message': (msg[-1:] or [''])[0][:400], 'caught': chk.returncode == 1 and bool(viol)}
+        json.dump(meta, open(os.path.join(d, 'meta.json'), 'w'), indent=1)
         sh(f'git -C /repo worktree remove --force {wt}'); shutil.rmtree(wt, ignore_errors=True)
         print(f'{os.path.basename(d)}: demo unchanged rc={before} (want 0), demo with change rc={after} (want !=0), '
               f'patch applies rc={ap.returncode}, check rc={chk.returncode} (want 1) {viol[:1]} {msg[-1:]}', flush=True)
